@@ -18,6 +18,15 @@ Part 'structured': the same per-trial oracle (no calibration) on the decoders
 whose smallest code exceeds the full-enumeration bound, over all scripts of
 weight <= w.
 
+Part 'sampler': every deformation configuration (name and axis) of every
+exported class on its smallest family members, noise directions with
+r_x != r_z: all scripts of weight <= 1 plus the "every qubit non-identity"
+scripts through run_once; the error drawn must be the one the per-qubit
+reference channel (deformation read per qubit from a FRESH code object)
+assigns to the variates.  The same configurations, with single-Pauli
+directions (2^n scripts), also enter the exact part 'trial' on the smallest
+member of each class when n <= 8.
+
 Part 'histories': DirectSimulation under a scripted stream; operations run(k),
 k in {0,1,2,3}; all operation sequences of length <= 4 with total <= 4 trials.
 
@@ -84,7 +93,11 @@ RULE = ('trial: (class,size) with n <= n_full x decoders {Matching, BP-OSD, Unio
         'both a failure and a success or raising. Stream letters m/h/q are raw variate levels (0.6 / 0.97 on '
         'all qubits; 0.97 on qubit 0 and 0.25 elsewhere) classified by the reference intervals at the '
         'simulated rate. estimator: n_runs = 1..k x every stream over the letters of length n_runs, errors '
-        'handed out by a scripted, counting error model; non-trivial = streams with n_runs >= 2.')
+        'handed out by a scripted, counting error model; non-trivial = streams with n_runs >= 2. sampler: '
+        'every (class, one of its smallest valid sizes, deformation name+axis, direction in {X.2Y.3Z.5, pureZ}); '
+        'scripts of weight <= 1 and all-qubits-non-identity, zero-probability classes skipped and counted; trial '
+        'additionally holds every deformation name+axis x {pureZ, pureX} on the smallest member (n <= 8) of '
+        'each class.')
 ASSUMPTIONS = [
     'GF(2) reference algebra mc/gf2.py; H, logicals_x, logicals_z of the code object define the code (C01)',
     'cumulative stacking order I,X,Y,Z of the sampler (C07), re-verified per script by error == script',
